@@ -31,7 +31,8 @@ def _argv_cwd(argv, cwd):
         os.chdir(old_cwd)
 
 
-def generate(d, process, sensor, cal, scratch, name, *, cse=True, filtering=5.0, max_dt=0.1, kind="ekf", rng=None, container="set"):
+def generate(d, process, sensor, cal, scratch, name, *, cse=True, filtering=5.0, max_dt=0.1, kind="ekf", rng=None, container="set",
+             raw_noise=False):
     """returns paths; raises whatever the generator raises"""
     from formak import cpp
     root = os.path.join(scratch, name)
@@ -45,9 +46,9 @@ def generate(d, process, sensor, cal, scratch, name, *, cse=True, filtering=5.0,
             contextlib.redirect_stdout(io.StringIO()):
         if kind == "ekf":
             r = cpp.compile_ekf(
-                m, process_noise={sympy.Symbol(n): float(v) for n, v in process.items()},
+                m, process_noise={sympy.Symbol(n): (v if raw_noise else float(v)) for n, v in process.items()},
                 sensor_models={k: dict(rd) for k, rd in d.sensors.items()},
-                sensor_noises={k: {r_: float(v) for r_, v in rd.items()} for k, rd in sensor.items()},
+                sensor_noises={k: {r_: (v if raw_noise else float(v)) for r_, v in rd.items()} for k, rd in sensor.items()},
                 calibration_map=cal_map, config=cfg)
         else:
             r = cpp.compile(m, calibration_map=cal_map, config=cfg)
